@@ -23,6 +23,10 @@ type opT struct {
 	Kind  string
 	ID    string
 	Stale bool // RemoveSame with an instance that is not the current one
+	// Cancel: the operation gets a cancellable context; a companion task parks at a gate of its own and
+	// cancels it when released, so "the caller's deadline fires while it waits for another closer" is a
+	// schedulable event like any other gate.
+	Cancel bool
 }
 
 func (t opT) String() string {
@@ -163,6 +167,23 @@ var tryErrCases = []caseDef{
 	{Ops: []opT{{Kind: "GC"}, {Kind: "Remove", ID: "a"}}, InitA: 1, InitB: 1, TV: 3},
 }
 
+// cancelCases: a closer with a bounded wait (Remove / RemoveSame with a context that gets cancelled)
+// races a closer that owns the entry (GC / TryRemove parked in TryClose, Remove parked in Close).
+// (Added after seeded change C16-3 - removeCtx closing an entry another closer still holds when its
+// own wait was cut short - was missed: every caller context was context.Background().)
+var cancelCases = func() []caseDef {
+	var out []caseDef
+	for _, owner := range []opT{{Kind: "GC"}, {Kind: "TryRemove", ID: "a"}, {Kind: "Remove", ID: "a"}, {Kind: "Close"}} {
+		for _, waiter := range []opT{{Kind: "Remove", ID: "a", Cancel: true}, {Kind: "RemoveSame", ID: "a", Cancel: true}} {
+			for _, tv := range []int{0, 1, 2} {
+				out = append(out, caseDef{Ops: []opT{owner, waiter}, InitA: 1, TV: tv})
+				out = append(out, caseDef{Ops: []opT{owner, waiter, {Kind: "Get", ID: "a"}}, InitA: 1, TV: tv})
+			}
+		}
+	}
+	return out
+}()
+
 // ---------------------------------------------------------------- one execution
 
 type decision struct {
@@ -289,11 +310,21 @@ func execute(cd caseDef, prefix []string, choose func(opts []string) int) *execR
 		}
 		o := m.newOp(t.Kind, t.ID, arg, "conc", i+1)
 		o.Stale = t.Stale
+		if t.Cancel {
+			o.Ctx, o.CancelCtx = context.WithCancel(context.Background())
+		}
 		recs = append(recs, o)
 	}
 	for i, o := range recs {
 		o := o
 		s.Go(i, o.Kind, func() { m.do(c, o) })
+	}
+	for i, o := range recs {
+		if o.CancelCtx != nil {
+			o := o
+			name := fmt.Sprintf("cancel-ctx-of-#%d", i+1)
+			s.Go(len(recs)+i, "Cancel", func() { m.gate(name); o.CancelCtx() })
+		}
 	}
 
 	var sig []string
